@@ -190,26 +190,29 @@ func concRun(kind int, r *rng, n, m int, nCloses int) {
 		}(calls[g])
 	}
 	// concurrent Close / Connect at the drawn points of progress
-	wg.Add(1)
-	go func() {
-		defer wg.Done()
-		defer func() {
-			if rec := recover(); rec != nil {
-				atomic.AddInt32(&panics, 1)
+	// (two such goroutines with the same schedule, so that Close / Connect calls also overlap each other)
+	for closer := 0; closer < 2; closer++ {
+		wg.Add(1)
+		go func() {
+			defer wg.Done()
+			defer func() {
+				if rec := recover(); rec != nil {
+					atomic.AddInt32(&panics, 1)
+				}
+			}()
+			<-start
+			for i, th := range thresholds {
+				for int(atomic.LoadInt32(&completed)) < th {
+					runtime.Gosched()
+				}
+				_ = client.Close()
+				for y := 0; y < yields[i]; y++ {
+					runtime.Gosched()
+				}
+				connect()
 			}
 		}()
-		<-start
-		for i, th := range thresholds {
-			for int(atomic.LoadInt32(&completed)) < th {
-				runtime.Gosched()
-			}
-			_ = client.Close()
-			for y := 0; y < yields[i]; y++ {
-				runtime.Gosched()
-			}
-			connect()
-		}
-	}()
+	}
 	close(start)
 	wg.Wait()
 
